@@ -194,6 +194,7 @@ class Summary:
         self.effects = []       # Effect on own params
         self.returns = EMPTY    # value over own params
         self.undecided = []     # texts
+        self.ddreads = {}       # text of a defaultdict-read note -> own roots
         self.fields = None      # __init__ only: what the new object holds
         self.field_map = {}     # __init__ only: field -> value at exit
 
@@ -638,10 +639,13 @@ class _FuncAnalysis:
             elif origin == 'opaque' and any(
                     lay == 0 and isinstance(root, int)
                     for root, _d, lay, _f, _h in base):
-                self.summary.undecided.append(
-                    f'{self.func.key}: read of defaultdict {txt(expr)[:50]} '
-                    f'with a key of unknown origin '
-                    f'(line {getattr(expr, "lineno", "?")})')
+                note = (f'{self.func.key}: read of defaultdict '
+                        f'{txt(expr)[:50]} with a key of unknown origin '
+                        f'(line {getattr(expr, "lineno", "?")})')
+                self.summary.undecided.append(note)
+                self.summary.ddreads[note] = {
+                    root for root, _d, lay, _f, _h in base
+                    if lay == 0 and isinstance(root, int)}
         return deref(base)
 
     def _key_origin(self, expr, env):
@@ -1014,6 +1018,17 @@ class _FuncAnalysis:
                         (f'{self.func.key}:{lineno}',) + eff.chain,
                         eff.kind, nfld))
         for und in summ.undecided:
+            if und in summ.ddreads:
+                # the defaultdict of the callee's object: of interest to the
+                # caller only when that object is one of ITS operands (not
+                # an object it has just built)
+                roots = {root for jroot in summ.ddreads[und]
+                         for root, _d, lay, _f, _h in binding.get(
+                             jroot, EMPTY)
+                         if isinstance(root, int) and lay == 0}
+                if not roots:
+                    continue
+                self.summary.ddreads.setdefault(und, set()).update(roots)
             if und not in self.summary.undecided:
                 self.summary.undecided.append(und)
         if is_ctor and summ.fields is None:
@@ -1366,12 +1381,17 @@ def defaultdict_typing(program):
             locals_dd = set(dd_params.get(func.key, ()))
             for sub in assigns:
                 tgt, val = sub.targets[0], sub.value
-                is_dd = (isinstance(val, ast.Call) and
-                         call_name(val) == 'defaultdict') or \
-                    (isinstance(val, ast.Name) and val.id in locals_dd) \
-                    or (isinstance(val, ast.Attribute) and
-                        val.attr in dd_fields and isinstance(
-                            val.value, ast.Name))
+
+                def dd_value(val, locals_dd=locals_dd):
+                    return (isinstance(val, ast.Call) and
+                            call_name(val) == 'defaultdict') or \
+                        (isinstance(val, ast.Name) and val.id in locals_dd) \
+                        or (isinstance(val, ast.Attribute) and
+                            val.attr in dd_fields and isinstance(
+                                val.value, ast.Name))
+                # `defaultdict(list) if arg is None else arg`: may be one
+                is_dd = dd_value(val) or (isinstance(val, ast.IfExp) and (
+                    dd_value(val.body) or dd_value(val.orelse)))
                 if not is_dd:
                     continue
                 if isinstance(tgt, ast.Name) and tgt.id not in locals_dd:
